@@ -439,7 +439,8 @@ func c04Recursion(p *Program, r *Report, g *Guards, reach map[*ssa.Function]bool
 					}
 					// progress: every path from the entry to this call has consumed input, or the call
 					// descends into a strict sub-structure of its own parameter
-					progress := !unprot[f][b] || blockConsumesBefore(b, i) || descends(ci.Common(), f)
+					progress := !unprot[f][b] || blockConsumesBefore(b, i) || descends(ci.Common(), f) ||
+						nilWhenUnconsumed(ci.Common(), f, unprot[f]) && targetsIgnoreNil(p, targets, inComp)
 					if !progress {
 						for _, t := range targets {
 							if _, ok := free[edge{f, t}]; !ok {
@@ -491,4 +492,75 @@ func c04Recursion(p *Program, r *Report, g *Guards, reach map[*ssa.Function]bool
 			r.OKf("recursion-progress", key, comp[0].Pos(), "every cycle through %d functions passes a call dominated by an input read", len(comp))
 		}
 	}
+}
+
+// nilWhenUnconsumed: the []byte argument of the call is, on every path that has not consumed input,
+// the nil constant (an absent value handed down as NULL).
+func nilWhenUnconsumed(call *ssa.CallCommon, f *ssa.Function, unprot map[*ssa.BasicBlock]bool) bool {
+	found := false
+	for _, a := range call.Args {
+		if !isByteSlice(a.Type()) {
+			continue
+		}
+		phi, ok := a.(*ssa.Phi)
+		if !ok {
+			return false
+		}
+		for i, e := range phi.Edges {
+			if k, ok := e.(*ssa.Const); ok && k.Value == nil {
+				continue
+			}
+			pred := phi.Block().Preds[i]
+			if !unprot[pred] || blockConsumesBefore(pred, len(pred.Instrs)) {
+				continue
+			}
+			return false
+		}
+		found = true
+	}
+	return found
+}
+
+var ignoreNilMemo = map[*ssa.Function]bool{}
+
+// targetsIgnoreNil: called with a nil source, none of the target methods reaches a function of the
+// recursive component (abstract interpretation with the source fixed to nil).
+func targetsIgnoreNil(p *Program, targets []*ssa.Function, inComp map[*ssa.Function]bool) bool {
+	compNames := map[string]bool{}
+	for f := range inComp {
+		if o, ok := f.Object().(*types.Func); ok {
+			compNames[shortFuncName(o)] = true
+		}
+	}
+	for _, t := range targets {
+		if v, ok := ignoreNilMemo[t]; ok {
+			if !v {
+				return false
+			}
+			continue
+		}
+		m, ok := t.Object().(*types.Func)
+		res := false
+		if ok && len(t.Params) >= 2 && isByteSlice(t.Params[1].Type()) {
+			in := newInterp(p, &effHooks{})
+			in.SentinelErrors = true
+			in.NoInline = func(f *types.Func) bool { return isModulePkg(f.Pkg()) && f != m && f.Name() != "createInjector" }
+			recv, args := paramVals(m)
+			args[0] = Val{K: KNil, T: args[0].T}
+			outs := in.RunFunc(m, recv, args, nil)
+			res = len(in.Undecided) == 0
+			for _, o := range outs {
+				for _, s := range o.St.trace {
+					if s.Kind == "callatom" && compNames[s.Name] {
+						res = false
+					}
+				}
+			}
+		}
+		ignoreNilMemo[t] = res
+		if !res {
+			return false
+		}
+	}
+	return len(targets) > 0
 }
